@@ -148,6 +148,20 @@ run_cleanup:
 	return res;
 }
 
+/*
+ * A connection stays listed, and may be referenced by the application, after
+ * its transport was taken down (qb_ipcs_disconnect() from connection_created(),
+ * a closed connection somebody still refers to): its rings are closed, its
+ * control page is unmapped and its descriptor numbers may belong to another
+ * connection by now.
+ */
+static int32_t
+_transport_is_up_(const struct qb_ipcs_connection *c)
+{
+	return (c->state == QB_IPCS_CONNECTION_ESTABLISHED ||
+		c->state == QB_IPCS_CONNECTION_ACTIVE);
+}
+
 static int32_t
 _modify_dispatch_descriptor_(struct qb_ipcs_connection *c)
 {
@@ -194,6 +208,9 @@ qb_ipcs_request_rate_limit(struct qb_ipcs_service *s,
 	qb_list_for_each_safe(pos, n, &s->connections) {
 
 		c = qb_list_entry(pos, struct qb_ipcs_connection, list);
+		if (!_transport_is_up_(c)) {
+			continue;
+		}
 		qb_ipcs_connection_ref(c);
 
 		if (rl == QB_IPCS_RATE_OFF) {
@@ -293,6 +310,8 @@ qb_ipcs_response_send(struct qb_ipcs_connection *c, const void *data,
 		return -EINVAL;
 	} else if (size > c->response.max_msg_size) {
 		return -EMSGSIZE;
+	} else if (!_transport_is_up_(c)) {
+		return -ENOTCONN;
 	}
 	qb_ipcs_connection_ref(c);
 	res = c->service->funcs.send(&c->response, data, size);
@@ -339,6 +358,8 @@ qb_ipcs_response_sendv(struct qb_ipcs_connection * c, const struct iovec * iov,
 		return -EINVAL;
 	} else if (!_iov_fits_(iov, iov_len, c->response.max_msg_size)) {
 		return -EMSGSIZE;
+	} else if (!_transport_is_up_(c)) {
+		return -ENOTCONN;
 	}
 	qb_ipcs_connection_ref(c);
 	res = c->service->funcs.sendv(&c->response, iov, iov_len);
@@ -427,6 +448,8 @@ qb_ipcs_event_send(struct qb_ipcs_connection * c, const void *data, size_t size)
 		return -EINVAL;
 	} else if (size > c->event.max_msg_size) {
 		return -EMSGSIZE;
+	} else if (!_transport_is_up_(c)) {
+		return -ENOTCONN;
 	}
 
 	qb_ipcs_connection_ref(c);
@@ -471,6 +494,8 @@ qb_ipcs_event_sendv(struct qb_ipcs_connection * c,
 		return -EINVAL;
 	} else if (!_iov_fits_(iov, iov_len, c->event.max_msg_size)) {
 		return -EMSGSIZE;
+	} else if (!_transport_is_up_(c)) {
+		return -ENOTCONN;
 	}
 	qb_ipcs_connection_ref(c);
 
@@ -980,7 +1005,7 @@ qb_ipcs_connection_stats_get_2(qb_ipcs_connection_t *c,
 
 	memcpy(stats, &c->stats, sizeof(struct qb_ipcs_connection_stats_2));
 
-	if (c->service->funcs.q_len_get) {
+	if (c->service->funcs.q_len_get && _transport_is_up_(c)) {
 		stats->event_q_length = c->service->funcs.q_len_get(&c->event);
 	} else {
 		stats->event_q_length = 0;
